@@ -1015,9 +1015,13 @@ def check_c19(ctx):
                 m = [l for l in out.splitlines() if l.startswith("PASS ")]
                 if m:
                     traces[name] = parse_line(m[0]).get("trace")
-        # WWide cases only exist in the wide builds; compare whatever ran
-        if len(set(traces.values())) > 1:
-            report_failure(ctx, "trace-differs", f, "observable trace differs between configurations: %s" % traces)
+        # WWide cases only exist in the wide builds; compare whatever ran. `wrapping_version` is
+        # documented to change what happens at a counter overflow, so a history that crosses one
+        # legitimately differs between the two classes: compare within each class.
+        for cls in (True, False):
+            sub = {n: t for n, t in traces.items() if ("wrapping" in n) == cls}
+            if len(set(sub.values())) > 1:
+                report_failure(ctx, "trace-differs", f, "observable trace differs between configurations: %s" % sub)
     if ctx.replay:
         write_evidence(ctx, "exploration", {"evaluations": len(files) * len(bins), "distinct_nontrivial": 2, "rule": "replay of saved inputs on all 16 builds", "samples": [open(ctx.replay).read()]}, HIST_ASSUMPTIONS)
         return
